@@ -89,10 +89,13 @@ def abbreviate_space_both(s):
 def parse_abbreviated_size(s):
     if s is None or s == "":
         return None
-    m = re.match(r"^(\d+)([KMGTPE]?[I]?[B]?)$", s.upper())
+    # ASCII digits, an optional blank, an optional (ASCII, case-insensitive)
+    # suffix: "100MB", "100 M", "1024 Ki", "1048576 B" (see configuration.rst)
+    m = re.match(r"^([0-9]+) ?([KMGTPE]?[I]?[B]?)\Z", s, re.ASCII | re.IGNORECASE)
     if not m:
         raise ValueError("unparseable value %s" % s)
     number, suffix = m.groups()
+    suffix = suffix.upper()
     if suffix.endswith("B"):
         suffix = suffix[:-1]
     multiplier = {"":   1,
